@@ -4,7 +4,7 @@
 From Coq Require Import NArith ZArith List Bool.
 Import ListNotations.
 Require Import UV.Gen.Consts UV.Mcount.Model UV.Mcount.Forest UV.Mcount.PlainStep UV.Mcount.PlainProofs
-  UV.Mcount.Codec UV.Mcount.PlainMore UV.Mcount.Overflow UV.Mcount.Embed UV.Mcount.EmbedOver UV.Mcount.EmbedMore UV.Mcount.Check UV.Mcount.Monotone UV.Mcount.Threads UV.Mcount.ForkChild UV.Mcount.Restore UV.Mcount.Method UV.Mcount.OverflowCyg UV.Mcount.ThreadExit UV.Mcount.DepthField.
+  UV.Mcount.Codec UV.Mcount.PlainMore UV.Mcount.Overflow UV.Mcount.Embed UV.Mcount.EmbedOver UV.Mcount.EmbedMore UV.Mcount.Check UV.Mcount.Monotone UV.Mcount.Threads UV.Mcount.ForkChild UV.Mcount.Restore UV.Mcount.Method UV.Mcount.OverflowCyg UV.Mcount.ThreadExit UV.Mcount.DepthField UV.Mcount.OverflowOpen.
 Local Open Scope N_scope.
 
 (* Writer and readers agree on the record word: the hand-packed word of record_ret_stack decodes,
@@ -240,3 +240,25 @@ Theorem C02_pthread_exit_example :
      {| r_time := 140; r_type := ENTRY; r_depth := 2; r_addr := 768 |}].
 Proof. exact thread_exit_example. Qed.
 Print Assumptions C02_pthread_exit_example.
+
+(* A history that ENDS beyond --max-stack (exit() called at the bottom of a deep chain): while the shadow stack is full
+   nothing is written lazily any more, the overflow flush of mcount_check_rstack is what puts the ENTRY records of the
+   open chain into the stream - and it runs at EVERY descent through the limit: from any quiescent state, also one in
+   which an earlier overflow left the `warned' flag set, a chain of --max-stack calls followed by one more call has the
+   ENTRY record of each of its calls in the stream, in order, depth = nesting, and every open frame is marked written. *)
+Theorem C02_overflow_flushes_open_chain : forall gd ms l s hk b tb,
+  fc s = fcd 0 -> enabled s = true -> ridx s = 0 -> stack s = [] ->
+  N.of_nat (length l) = ms -> ms <= gd -> 0 < ms ->
+  let s' := fst (exec (plain 0 gd ms PG) (enters l ++ [Enter b tb]) (s, hk)) in
+  out s' = out s ++ entries l 0 /\ stack s' = frames true l 0 [].
+Proof. exact overflow_flushes_open_chain. Qed.
+Print Assumptions C02_overflow_flushes_open_chain.
+
+Theorem C02_overflow_flushes_open_chain_example :
+  let s := {| fc := fcd 0; enabled := true; cached := true; stack := []; ridx := 0; out := []; warned := true |} in
+  out (fst (exec (plain 0 1024 3 PG) (enters [(16, 10); (32, 11); (48, 12)] ++ [Enter 64 13]) (s, []))) =
+  [{| r_time := 10; r_type := ENTRY; r_depth := 0; r_addr := 16 |};
+   {| r_time := 11; r_type := ENTRY; r_depth := 1; r_addr := 32 |};
+   {| r_time := 12; r_type := ENTRY; r_depth := 2; r_addr := 48 |}].
+Proof. exact overflow_open_example. Qed.
+Print Assumptions C02_overflow_flushes_open_chain_example.
